@@ -57,6 +57,9 @@ void generate(sim::Rng &r, uint64_t seed, const std::string &tier, sim::Plan &p)
   p.cfg["pct_horizon"] = 1200;
   int n = (int)r.range(1, thorough ? 60 : 24);
   int ncuts = 0;
+  // transient failures to create the next log file (descriptor table full): one phase only, and the oracle tolerates a missing tail
+  bool open_fail = r.chance(100);
+  if (open_fail) { p.cfg["fmask"] = p.get("fmask") | sim::F_OPEN_FAIL; p.cfg["open_fail"] = 1; p.cfg["file_max"] = r.pick((const long[]){1, 50, 200}); ncuts = 6; }
   for (int i = 0; i < n; ++i) {
     sim::Op op;
     if (i > 2 && ncuts < 6 && r.chance(80)) { ++ncuts; op.kind = "cut"; long off = (long)r.below(10); op.a = {r.chance(500) ? -1 : r.range(0, 7), r.chance(500) ? -1 : r.range(0, 7), (long)r.below(2), off == 0 ? 1 : 0, off == 1 ? 1 : 0}; p.ops.push_back(op); continue; }   // [new recording-sink level, new file-sink level, via setLevel("", l) or setLevel(l)]
@@ -200,7 +203,7 @@ std::vector<FileRec> read_dir(const std::string &dir, const char *when) {
   return out;
 }
 
-void check_against(const char *sink, const char *when, const std::vector<size_t> &expect_idx, const std::vector<FileRec> &got, const std::map<long, long> &tid_of) {
+void check_against(const char *sink, const char *when, const std::vector<size_t> &expect_idx, const std::vector<FileRec> &got, const std::map<long, long> &tid_of, bool tolerate_missing_tail = false) {
   // every expected record exactly once, byte-exact; nothing else; per-thread order
   std::map<std::pair<long, long>, int> seen;
   std::map<long, long> last_seq;
@@ -244,6 +247,7 @@ void check_against(const char *sink, const char *when, const std::vector<size_t>
     seen[{t, r.seq}] = 1;
     ls = r.seq + 1;
   }
+  if (tolerate_missing_tail) return;      // a record may be missing only if every later record of its thread is missing too: gaps were reported above
   for (size_t i : expect_idx) if (!seen.count({W.recs[i].t, W.recs[i].seq})) {
     sim::violation("C09/record-missing", sim::fmt("%s %s: thread %ld's record #%ld (level %ld, module %s, %ld chars) passed the filter but is not in the sink", sink, when, W.recs[i].t, W.recs[i].seq, W.recs[i].level, MODS[W.recs[i].mod], W.recs[i].len));
     return;
@@ -256,6 +260,7 @@ void execute(const sim::Plan &plan) {
   sim::fault_scope((uint64_t)plan.get("fseed"), (unsigned)plan.get("fmask"));
   sim::fault_late_max_ms(30);
   sim::fault_stall_max_ms(25);
+  if (plan.get("open_fail")) sim::fault_open_prefix((std::string(sim::run_dir()) + "/logs").c_str());
   {
     // start the wall clock wall_frac_ms into a second
     long frac = std::max(0L, std::min(999L, plan.get("wall_frac_ms", 0)));
@@ -335,7 +340,7 @@ void execute(const sim::Plan &plan) {
       if (got.size() < before) sim::violation("C09/record-missing", "records of an earlier phase disappeared from the log files");
       else {
         std::vector<FileRec> tail(got.begin() + (long)before, got.end());
-        if (sim::violation_count() == 0) check_against("file sink", "right after disable()", exp_ph, tail, tid_of);
+        if (sim::violation_count() == 0) check_against("file sink", "right after disable()", exp_ph, tail, tid_of, plan.get("open_fail") != 0);
       }
     }
     if (ph + 1 < nphase) {
